@@ -12,7 +12,8 @@ Record c07_obs := mkObs {
   o_nav2 : str;       (* base.navigate(ref1).navigate(ref2).to_text() *)
   o_nb1 : str; o_nb2 : str;   (* URL(base).normalize() once / twice *)
   o_nr1 : str; o_nr2 : str;   (* URL(ref1).normalize() once / twice *)
-  o_ref1 : str; o_ref2 : str  (* the references as handed over: the text itself, or what the URL object prints *)
+  o_ref1 : str; o_ref2 : str; (* the references as handed over: the text itself, or what the URL object prints *)
+  o_parts1 : list str; o_parts2 : list str   (* list(result.path_parts) of the two results: the DECODED segments *)
 }.
 
 Record c07_case := mkCase {
@@ -28,7 +29,8 @@ Definition obs_eqb (a b : c07_obs) : bool :=
   str_eqb (o_after a) (o_after b) && str_eqb (o_nav2 a) (o_nav2 b) &&
   str_eqb (o_nb1 a) (o_nb1 b) && str_eqb (o_nb2 a) (o_nb2 b) &&
   str_eqb (o_nr1 a) (o_nr1 b) && str_eqb (o_nr2 a) (o_nr2 b) &&
-  str_eqb (o_ref1 a) (o_ref1 b) && str_eqb (o_ref2 a) (o_ref2 b).
+  str_eqb (o_ref1 a) (o_ref1 b) && str_eqb (o_ref2 a) (o_ref2 b) &&
+  list_eqb str_eqb (o_parts1 a) (o_parts1 b) && list_eqb str_eqb (o_parts2 a) (o_parts2 b).
 
 (* what the harness does for c_unrooted: URL.from_parts(scheme, host, path_parts[1:], query_params,
    fragment, port, username, password) when there is a host and the parsed path is ('', s, ...) with s non-empty *)
@@ -56,7 +58,8 @@ Definition c07_model (c : c07_case) : option c07_obs :=
                           (to_text nb) (to_text (normalize nb))
                           (to_text nr) (to_text (normalize nr))
                           (if c_as_url1 c then to_text r else c_ref1 c)
-                          (if c_as_url2 c then to_text r2 else c_ref2 c))
+                          (if c_as_url2 c then to_text r2 else c_ref2 c)
+                          (u_path n1) (u_path n2))
           | None => None
           end
       | None => None
@@ -100,13 +103,38 @@ Definition c07_holds (c : c07_case) : bool :=
 Definition c07_known (c : c07_case) : bool :=
   ref_has_empty_marker (c_ref1 c) || ref_has_empty_marker (c_ref2 c).
 
-Definition c07_verdict (c : c07_case) : verdict :=
+Definition c07_verdict1 (c : c07_case) : verdict :=
   (match c07_model c with Some m => obs_eqb m (c_obs c) | None => false end,
    c07_holds c,
    c07_known c).
 
+(* ---- the network form: to_text(full_quote=True) --------------------------------------------
+   Minimal quoting does not escape '%', so a segment 'x%2Fy' (wrong) and 'x/y' (right) print alike; in
+   the fully quoted text every decoded character is escaped again ('%' included), so the five fully
+   quoted texts determine the decoded components, and RFC 5.2 on them is the statement on decoded
+   parts.  These texts are checked against the Spec only (full quoting - UTF-8, IDNA - is C06's; the
+   model does not produce them); the decoded segments of the results are tied to the model through
+   o_parts1/o_parts2. *)
+Record c07_full := mkFull {
+  f_base : str; f_ref1 : str; f_nav1 : str; f_ref2 : str; f_nav2 : str }.
+
+Definition c07_full_ok (f : c07_full) : bool :=
+  spec_navigate (f_base f) (f_ref1 f) (f_nav1 f) &&
+  spec_query (f_base f) (f_ref1 f) (f_nav1 f) &&
+  spec_chain (f_base f) (f_ref1 f) (f_ref2 f) (f_nav2 f) &&
+  spec_query_chain (f_base f) (f_ref1 f) (f_ref2 f) (f_nav2 f).
+
+Definition c07_case2 := (c07_case * c07_full)%type.
+
+Definition c07_verdict (cf : c07_case2) : verdict :=
+  let '(a, h, k) := c07_verdict1 (fst cf) in
+  (* inside the finding's guard the fully quoted reference of a str '?' is '' as well: the clause
+     is only required where the main predicate is *)
+  (a, h && (c07_full_ok (snd cf) || k), k).
+
 (* for replay files: what the model computes and what the Spec requires *)
-Definition c07_explain (c : c07_case) :=
+Definition c07_explain (cf : c07_case2) :=
+  let c := fst cf in
   (c07_model c,
    target (o_before (c_obs c)) (o_ref1 (c_obs c)),
    match target (o_before (c_obs c)) (o_ref1 (c_obs c)) with
